@@ -42,7 +42,10 @@ def context(draw, hostile=True):
 
 BASE_PATHS = ["s1", "s2", "n1", "zero", "es", "none1", "empty", "lst", "lst2", "d1/k_a", "d1/k_b/k_c", "d1/k_l", "d1/k_none",
               "d1/missing", "missing", "missing/deeper", "f1", "fd/k_a", "lst/0", "lst/7", "lst2/0", "d1/k_l/0", "nothing", "default",
-              "s1/nope"]
+              "s1/nope",
+              # names that tal:define statements elsewhere in the template may (or may not) have defined: out of their scope they
+              # are missing, and a global define is seen from there on
+              "v00", "v01", "v10", "v11", "v20", "v21", "v30", "gv1", "globalnav", "locale", "localx"]
 SEQ_PATHS = ["lst", "lst", "lst2", "empty", "fl", "d1/k_l", "none1", "missing", "nothing", "default", "n1"]
 REPEAT_PROPS = ["index", "number", "even", "odd", "start", "end", "length", "letter", "Letter", "roman", "Roman"]
 
@@ -119,7 +122,8 @@ def element(draw, depth, scope, allow_metal_slot=False):
         clauses = []
         defined = list(sc.get("defined", []))
         for i in range(draw(st.integers(1, 2))):
-            name = "v%d%d" % (depth, i) if draw(st.booleans()) else draw(st.sampled_from(["s2", "gv1"]))
+            # (names that merely begin with a scope keyword are ordinary names)
+            name = "v%d%d" % (depth, i) if draw(st.booleans()) else draw(st.sampled_from(["s2", "gv1", "globalnav", "locale", "localx", "globals1"]))
             scope_kw = draw(st.sampled_from(["", "local ", "global "]))
             ex = draw(expr(dict(sc, defined=defined), allow_default=False))
             clauses.append("%s%s %s" % (scope_kw, name, ex.replace(";", ";;")))
